@@ -92,6 +92,15 @@ class World:
             return ('bool', False) if body.local_ty(t['dest']['l']) == 'bool' else ('opaque', 'tracing')
         if name == 'core::mem::drop' or name.startswith('core::ptr::drop_in_place'):
             return UNIT
+        # views / owned copies of a symbolic string are the same text
+        if args and seg in ('as_str', 'as_ref', 'borrow', 'deref', 'to_string', 'to_owned', 'clone', 'into', 'from', 'into_owned', 'as_mut_str', 'into_boxed_str', 'into_string') \
+                and (name.startswith(('alloc::string::String::', 'core::str::', 'alloc::str::', 'alloc::borrow::Cow::')) or
+                     name in ('core::convert::AsRef::as_ref', 'core::borrow::Borrow::borrow', 'core::ops::deref::Deref::deref', 'alloc::string::ToString::to_string',
+                              'alloc::borrow::ToOwned::to_owned', 'core::clone::Clone::clone', 'core::convert::Into::into', 'core::convert::From::from')):
+            a0 = interp.deref_all(args[0])
+            if a0 is not None and a0[0] == 'key' and not t['dest']['p']:
+                ty = body.local_ty(t['dest']['l'])
+                return ('ref', Cell(a0)) if ty.startswith('&') else a0
         return None
 
     # ---- futures ---------------------------------------------------------------------------------------------------
